@@ -263,7 +263,15 @@ pub fn generate(tier: Tier, rng: &mut Rng) -> Vec<Case> {
     let mut spec = CtxSpec::default_ctx();
     spec.fns.push(("hid".into(), FnSpec::Host(vec!["ident".into(), "pos-value".into()], Body::Echo)));
     spec.fns.push(("hmac".into(), FnSpec::Host(vec!["this-value".into(), "ident".into(), "expr".into()], Body::Echo)));
-    for src in ["hid(abc, 1)", "hid(abc)", "hid()", "hid(a.b, 1)", "hid(1, 1)", "[1].hmac(x, x + 1)", "hmac([1], x, x + 1)", "[1].hmac(x)", "[1].hmac(1, 2)", "hmac()"] {
+    // the name handed to an Identifier / Expression parameter is passed as written, whether or not
+    // a variable of that name is bound (in the root, in an inner scope, or by an enclosing macro)
+    spec.vars.push(("n".into(), cel_interpreter::Value::Int(1)));
+    spec.vars.push(("s".into(), cel_interpreter::Value::String(std::sync::Arc::new("txt".into()))));
+    spec.vars.push(("l".into(), cel_interpreter::Value::List(std::sync::Arc::new(vec![cel_interpreter::Value::Int(1)]))));
+    spec.scopes.push(vec![("inner".to_string(), cel_interpreter::Value::Bool(true))]);
+    spec.fns.push(("hexpr".into(), FnSpec::Host(vec!["expr".into(), "pos-value".into()], Body::Echo)));
+    for src in ["hid(abc, 1)", "hid(abc)", "hid()", "hid(a.b, 1)", "hid(1, 1)", "[1].hmac(x, x + 1)", "hmac([1], x, x + 1)", "[1].hmac(x)", "[1].hmac(1, 2)", "hmac()",
+        "hid(n, 1)", "hid(n, n)", "hid(s, 2)", "hid(l, 3)", "hid(inner, 4)", "[1].hmac(n, n + 1)", "hmac(l, n, n)", "[5, 6].map(e, hid(e, e))", "[5].map(n, hid(n, n))", "hexpr(n, n)", "hexpr(s, 1)", "hexpr(n + 1, n + 1)", "[7].map(e, hexpr(e, e))", "l.hmac(s, inner)"] {
         if let Some(mut c) = eval_case_from_src(&spec, src) {
             c.tags = vec!["host-ident"];
             out.push(c);
